@@ -81,6 +81,11 @@ Definition src_exhausted : M unit := fun s =>
 Definition visible (s : src) : list N :=
   match lim s with None => rem s | Some l => firstN l (rem s) end.
 
+(* read-only views of the state used by the composite routines *)
+Definition get_lim : M (option N) := fun s => (Ok (lim s), s).
+Definition get_visible : M (list N) := fun s => (Ok (visible s), s).
+Definition get_avail : M N := fun s => (Ok (avail s), s).
+
 (* Primitive::remaining *)
 Definition remaining : M N := fun s =>
   match lim s with Some l => (Ok l, s) | None => (Panic, s) end.
